@@ -1,1 +1,3 @@
 import MV.Model.Par
+import MV.Proof.ParScan
+import MV.Props.C13a
